@@ -521,6 +521,7 @@ inline void supervise(const Part &part, const Options &opt, Agg &agg) {
     }
     unlink(errPath);
     if (respawns > 2000) { agg.infra.push_back("too many worker respawns"); break; }
+    if (agg.viol.size() >= 60) break;  // enough witnesses: do not burn minutes on thousands of crashing cases
   }
 }
 
